@@ -18,10 +18,11 @@ from ast import PyCF_ONLY_AST
 from beartype.claw._ast.clawastmain import BeartypeNodeTransformer
 from beartype.claw._importlib.clawimpcache import (  # type: ignore[attr-defined]
     cache_from_source_beartype,
-    cache_from_source_original,
+    cache_from_source_thread_local,
 )
 from beartype.roar import BeartypeClawImportAstException
 from beartype._conf.confmain import BeartypeConf
+from beartype._data.claw.dataclawmagic import OPTIMIZATION_MARKER_BEARTYPE
 from beartype._data.shame.module.datashamemodclaw import BLACKLIST_CLAW_PACKAGE_NAMES_REGEX
 from beartype._util.ast.utilastget import get_node_repr_indented
 from beartype._util.py.utilpyversion import IS_PYTHON_AT_LEAST_3_15
@@ -465,7 +466,22 @@ class BeartypeSourceFileLoader(SourceFileLoader):
         # bytecode filenames.
         if conf is None:
             # print(f'Importing module "{fullname}" without beartyping...')
-            return super().get_code(fullname)
+
+            # Beartype-specific optimization marker previously applied by the
+            # current thread if this unhooked module is being imported by a
+            # parent hooked module currently being compiled by this thread *OR*
+            # "None" otherwise. In either case, temporarily disable this marker
+            # to prevent this unhooked module from being compiled under a
+            # beartyped bytecode filename.
+            optimization_marker_old = getattr(
+                cache_from_source_thread_local, 'optimization_marker', None)
+            cache_from_source_thread_local.optimization_marker = None
+
+            try:
+                return super().get_code(fullname)
+            finally:
+                cache_from_source_thread_local.optimization_marker = (
+                    optimization_marker_old)
         # Else, that module has been hooked. In this case...
         #
         # Note that the logic below requires inefficient exception handling (as
@@ -482,23 +498,44 @@ class BeartypeSourceFileLoader(SourceFileLoader):
         # Expose this configuration to the "beartype.claw._ast" subpackage.
         claw_state.module_name_to_beartype_conf[fullname] = conf
 
-        # Temporarily monkey-patch away the cache_from_source() function with a
+        # Monkey-patch away the cache_from_source() function with a
         # beartype-specific replacement transforming that module with
         # beartype-specific type-checking.
         #
-        # Note that @agronholm (Alex Grönholm) claims that "the import lock
-        # should make this monkey patch safe." We're trusting you here, man!
-        _bootstrap_external.cache_from_source = cache_from_source_beartype
+        # Note that this function is a process-wide global but that modules are
+        # importable from multiple threads concurrently (Python holds only a
+        # per-module rather than global lock during importation). Temporarily
+        # installing and then uninstalling this replacement would thus be
+        # unsafe: the first of two threads concurrently importing two hooked
+        # modules to finish would uninstall this replacement out from under the
+        # other thread, which would then cache beartyped bytecode under the
+        # standard non-beartyped bytecode filename (and vice versa for unhooked
+        # modules imported by other threads while this replacement is
+        # installed). Instead, this replacement is installed permanently but
+        # only applies the beartype-specific optimization marker in threads
+        # that are currently compiling a hooked module.
+        if _bootstrap_external.cache_from_source is not (
+            cache_from_source_beartype):
+            _bootstrap_external.cache_from_source = cache_from_source_beartype
+
+        # Beartype-specific optimization marker previously applied by the
+        # current thread if any *OR* "None" otherwise.
+        optimization_marker_old = getattr(
+            cache_from_source_thread_local, 'optimization_marker', None)
+
+        # Instruct this replacement to apply this marker in this thread.
+        cache_from_source_thread_local.optimization_marker = (
+            OPTIMIZATION_MARKER_BEARTYPE)
 
         # Attempt to defer to the superclass method.
         try:
             # print(f'Importing module "{fullname}" with beartyping...')
             return super().get_code(fullname)
         # After doing so (and regardless of whether doing so raises an
-        # exception), restore the original cache_from_source() function.
+        # exception), restore the prior marker for this thread.
         finally:
-            _bootstrap_external.cache_from_source = (
-                cache_from_source_original)
+            cache_from_source_thread_local.optimization_marker = (
+                optimization_marker_old)
 
 
     # Note that we explicitly ignore mypy override complaints here. For unknown
